@@ -485,8 +485,14 @@ def run(ctx):
                 bad.append("the frame pushed is not (rule, pos.byte_offset(), false)")
         else:
             bad.append("%d frame pushes" % len(pushes))
-        marks = [n for n in walk(b["value"]) if n["k"] == "assign"]
-        if len(marks) != 1 or lit_bool(tm.t(marks[0]["r"])) != "true":
+        marks = [(n, tm) for n in walk(b["value"]) if n["k"] == "assign"]
+        for n in walk(b["value"]):        # the marking step may live in a private helper of the tracker (`self.mark_parent()`)
+            if n["k"] in ("call", "mcall") and n.get("callee") and strip_generics(n["callee"]["path"]).startswith(strip_generics(T)) and \
+                    strip_generics(n["callee"]["path"]).rsplit("::", 1)[-1] not in ("record", "prepare", "get_entry"):
+                hb = next((c.body(f) for f in c.bodies if strip_generics(f) == strip_generics(n["callee"]["path"])), None)
+                if hb is not None:
+                    marks += [(m, Terms(c, hb)) for m in walk(hb["value"]) if m["k"] == "assign"]
+        if len(marks) != 1 or lit_bool(marks[0][1].t(marks[0][0]["r"])) != "true":
             bad.append("the enclosing frame is not marked `has_children = true`")
         recs = [n for n in walk(b["value"]) if n["k"] in ("call", "mcall") and n.get("callee") and strip_generics(n["callee"]["path"]) == strip_generics(T + "record")]
         if len(recs) == 1:
@@ -513,6 +519,17 @@ def run(ctx):
         if fl.get("attempts", ("?",))[:2] != ("call", "alloc::collections::btree::map::BTreeMap::new"):
             bad.append("a new tracker does not start without attempts")
         (rt.violate("new", "; ".join(bad), c.loc(b["value"].get("sp"))) if bad else rt.inst("new", c.loc(b["value"].get("sp")), "ok"))
+    for nm, wantc in (("positive_during", "true"), ("negative_during", "false")):
+        b = c.body(T + nm)
+        if b is None:
+            rt.violate(nm, "missing (anchor lost)")
+            continue
+        cs = [a["c"] for n in walk(b["value"]) if n.get("callee") and strip_generics(n["callee"]["path"]) == strip_generics(T + "during")
+              for a in n["callee"].get("args", []) if "c" in a]
+        if cs == [wantc]:
+            rt.inst(nm, c.loc(b["value"].get("sp")), "ok", {"polarity": wantc})
+        else:
+            rt.violate(nm, "runs its closure under polarity %s, expected `during::<_, %s>`" % (cs or "?", wantc), c.loc(b["value"].get("sp")))
     b = c.body(T + "get_entry")
     if b is not None:
         conds = [n for n in walk(b["value"]) if n["k"] == "binary" and n.get("op") in ("==", "!=", "<", ">", "<=", ">=")]
